@@ -202,25 +202,56 @@ class _Container:
         self.value = np.zeros(1)
 
 
-def mk_uniform(data, dim, lam, lumped, classes, **kw):
-    from sparseSpACE.GridOperation import DensityEstimation
-    op = DensityEstimation(np.array([[float(c) for c in x] for x in data]), dim, masslumping=lumped, lambd=float(lam),
-                           classes=None if classes is None else np.array([float(c) for c in classes]), **quiet(), **kw)
-    op.initialize()
+def caller_array(data, affine=None):
+    """the array the CALLER hands to the operation: the in-cube data, or its affine pre-image a_d + s_d * x (outside the cube;
+    a_d, s_d dyadic and every dimension attains 0 and 1, so that min-max scaling reproduces the in-cube data exactly)"""
+    arr = np.array([[float(c) for c in x] for x in data])
+    if affine is not None:
+        arr = np.array([[float(F(a) + F(sc) * c) for c, (a, sc) in zip(x, affine)] for x in data])
+    return arr
+
+
+def remember(op, arr, before, data):
+    op._caller_data = arr
+    op._caller_copy = before          # copy taken BEFORE the operation saw the array
+    op._incube = np.array([[float(c) for c in x] for x in data])
     return op
 
 
-def mk_dimwise(data, dim, lam, lumped, classes, numeric=False, reuse=False, lmax=None):
+def mk_uniform(data, dim, lam, lumped, classes, affine=None, **kw):
+    from sparseSpACE.GridOperation import DensityEstimation
+    arr = caller_array(data, affine)
+    before = arr.copy()
+    op = DensityEstimation(arr, dim, masslumping=lumped, lambd=float(lam),
+                           classes=None if classes is None else np.array([float(c) for c in classes]), **quiet(), **kw)
+    op.initialize()
+    return remember(op, arr, before, data)
+
+
+def mk_dimwise(data, dim, lam, lumped, classes, numeric=False, reuse=False, lmax=None, affine=None, **kw):
     from sparseSpACE.GridOperation import DensityEstimation
     from sparseSpACE.Grid import GlobalTrapezoidalGrid
     g = GlobalTrapezoidalGrid(a=np.zeros(dim), b=np.ones(dim), boundary=False, modified_basis=False)
-    op = DensityEstimation(np.array([[float(c) for c in x] for x in data]), dim, grid=g, masslumping=lumped, lambd=float(lam),
+    arr = caller_array(data, affine)
+    before = arr.copy()
+    op = DensityEstimation(arr, dim, grid=g, masslumping=lumped, lambd=float(lam),
                            classes=None if classes is None else np.array([float(c) for c in classes]),
-                           numeric_calculation=numeric, reuse_old_values=reuse, **quiet())
+                           numeric_calculation=numeric, reuse_old_values=reuse, **quiet(), **kw)
     cont = _Container()
     op.init_dimension_wise(g, g, cont, 1, lmax if lmax is not None else [1] * dim, np.zeros(dim), np.ones(dim))
     op.initialize_evaluation_dimension_wise(cont)
-    return op, cont
+    return remember(op, arr, before, data), cont
+
+
+def check_data_handling(ck, op, case, tags, when):
+    """the caller's array is never modified; the operation works on the data in the unit cube (min-max scaled if the caller's
+    data lie outside, untouched if they lie inside -- touching the faces included)"""
+    if not np.array_equal(op._caller_data, op._caller_copy):
+        ck.viol("caller-data-modified", dict(tags, when=when), case, {"max_abs_change": float(np.max(np.abs(op._caller_data - op._caller_copy)))})
+        op._caller_data[...] = op._caller_copy
+    if np.shape(op.data) != np.shape(op._incube) or not np.array_equal(np.asarray(op.data, dtype=float), op._incube):
+        ck.viol("data-in-unit-cube", dict(tags, when=when, outside=case.get("affine") is not None), case,
+                {"op.data[:3]": np.asarray(op.data).tolist()[:3], "expected[:3]": op._incube.tolist()[:3]})
 
 
 def node_level(x):
@@ -283,7 +314,7 @@ def gen_case(ctx, thorough, force=None):
     if force is None and r.random() < 0.06:
         return gen_boundary_case(ctx)
     big = r.random() < (0.12 if not thorough else 0.2)
-    dim = r.choice([1, 2, 2, 3])
+    dim = r.choice([1, 2, 2, 3, 3, 4])
     lam = r.choice(LAMS)
     lumped = r.random() < 0.3
     with_classes = r.random() < 0.4
@@ -291,6 +322,9 @@ def gen_case(ctx, thorough, force=None):
         kind, big, with_classes, lumped = "uniform", True, True, False
     if force == "numeric-2d":
         kind, big, dim, lumped = "dimwise", False, 2, False
+    if force in ("sibling", "outside", "history"):
+        kind, big = r.choice(["uniform", "dimwise"]), False
+        dim = r.choice([1, 2, 2, 3])
     if force == "extreme":
         # extreme scales: lambda 1e8..1e12 (solution ~ b/lambda) and/or every sample within 2^-40 of the domain boundary (all hats
         # almost zero): the unnormalised mean of the positive parts is tiny but NOT zero, so the surpluses must be normalised
@@ -301,20 +335,29 @@ def gen_case(ctx, thorough, force=None):
             dim = len(lv)
         else:
             while True:
-                lv = [r.randint(1, 4) for _ in range(dim)]
-                if math.prod(2 ** l - 1 for l in lv) <= ((64 if not thorough else 120) if force != "extreme" else 21):
+                lv = [r.randint(1, 4 if dim < 4 else 2) for _ in range(dim)]
+                if math.prod(2 ** l - 1 for l in lv) <= ((64 if not thorough else 120) if force is None else 21):
                     break
         stripes = uniform_stripes(lv)
     else:
         lv = None
         if big:
-            dim = r.choice([1, 2, 2])
+            dim = r.choice([1, 2, 2, 2, 3])
             if dim == 1:
-                stripes = [gen_stripe(r, 235, 8, lo=203)]
+                # both sides of the 200-point switch and the switch itself
+                n_int = r.choice([199, 200, 201, r.randint(202, 233)])
+                stripes = [gen_stripe(r, n_int + 2, 8, lo=n_int + 2)]
+            elif dim == 3:
+                stripes = [gen_stripe(r, 9, 4, lo=9), gen_stripe(r, 9, 4, lo=9), gen_stripe(r, 7, 4, lo=7)]      # 7 x 7 x 5 = 245
+                r.shuffle(stripes)
+            elif r.random() < 0.4:
+                # anisotropic: one dimension with a single interior node (three-node stripe), leading or not
+                stripes = [gen_stripe(r, 3, 1, lo=3), gen_stripe(r, r.randint(203, 222), 8, lo=203)]
+                r.shuffle(stripes)
             else:
                 stripes = [gen_stripe(r, 19, 6, lo=17), gen_stripe(r, 19, 6, lo=17)]
         else:
-            cap = {1: 14, 2: 8, 3: 5}[dim] if force != "extreme" else {1: 9, 2: 5, 3: 4}[dim]
+            cap = {1: 14, 2: 8, 3: 5, 4: 4}[dim] if force not in ("extreme", "sibling", "outside", "history") else {1: 9, 2: 5, 3: 4, 4: 4}[dim]
             stripes = [gen_stripe(r, cap, 5) for _ in range(dim)]
             if force == "numeric-2d":
                 # 2 x 2 .. 3 x 3 interior nodes: every kind of neighbour pair (axis-parallel, diagonal, anti-diagonal) occurs
@@ -329,11 +372,31 @@ def gen_case(ctx, thorough, force=None):
             eps = F(1, 2 ** r.choice([36, 40, 44]))
             data = [[r.choice([eps, 1 - eps]) for _ in range(dim)] for _ in range(M)]
     classes = [r.choice([-1, 1]) for _ in range(M)] if with_classes else None
+    affine = None
+    if force == "outside" or (force is None and r.random() < 0.05):
+        # data outside the unit cube: the caller's array is a_d + s_d * x; every dimension attains 0 and 1 (faces touched)
+        M = max(M, 2)
+        data = data[:M] + gen_data(r, dim, stripes, M - len(data[:M]))
+        data[0] = [F(0)] * dim
+        data[1] = [F(1)] * dim
+        classes = [r.choice([-1, 1]) for _ in range(M)] if with_classes else None
+        affine = [[frac_str(F(r.choice([-4, -1, -1, 0, 1, 3]), r.choice([1, 2]))), frac_str(F(r.choice([2, 4, 8, 1]), 1) / r.choice([1, 1, 2]))]
+                  for _ in range(dim)]
+        if all(F(a) >= 0 and F(a) + F(sc) <= 1 for a, sc in affine):
+            affine[0] = ["-1", "2"]          # at least one dimension really leaves the cube (otherwise nothing is rescaled)
+    sibling = None
+    if force == "sibling":
+        M2 = r.choice([2, 4, 8])
+        sibling = {"lam": frac_str(r.choice(LAMS)), "lumped": r.random() < 0.4,
+                   "classes": [r.choice([-1, 1]) for _ in range(M2)] if r.random() < 0.4 else None,
+                   "data": [[frac_str(c) for c in x] for x in gen_data(r, dim, stripes, M2)], "reuse": r.random() < 0.5}
     numeric = (kind == "dimwise" and not big and r.random() < (0.15 if not thorough else 0.2)
-               and math.prod(len(s) - 2 for s in stripes) <= (9 if dim == 1 else 4) and dim <= 2) or force == "numeric-2d"
+               and math.prod(len(s) - 2 for s in stripes) <= (9 if dim == 1 else 4) and dim <= 2 and force is None) or force == "numeric-2d"
     return {"kind": kind, "dim": dim, "lv": lv, "stripes": [[frac_str(c) for c in s] for s in stripes],
             "lam": frac_str(lam), "lumped": lumped, "classes": classes, "numeric": numeric,
-            "reuse": bool(kind == "dimwise" and not numeric and r.random() < 0.5), "extreme": force == "extreme",
+            "reuse": bool(kind == "dimwise" and (not numeric or force == "numeric-2d") and r.random() < 0.5), "extreme": force == "extreme",
+            "history": force == "history" or (force is None and r.random() < 0.15),
+            "affine": affine, "pre_scaled": bool(affine is None and r.random() < 0.1), "sibling": sibling,
             "data": [[frac_str(c) for c in x] for x in data], "big": big, "bigR": bool(big and (thorough or r.random() < 0.35))}
 
 
@@ -652,10 +715,16 @@ def _run_case(ck, case):
     G = gram_ref(stripes) if (N <= 130 or (N <= 330 and (case.get("bigR") or lumped))) else None
     wref = trap_weights_ref(stripes)
 
+    kw = {"affine": case.get("affine")}
+    if case.get("pre_scaled"):
+        kw["pre_scaled_data"] = True
+    if case.get("sibling") and N <= 45:
+        return run_sibling(ck, case, stripes, data, lam, lumped, classes, tags)
     if case["kind"] == "uniform":
         lv = case["lv"]
         lvs = fints(lv)
-        op = mk_uniform(data, dim, lam, lumped, classes)
+        op = mk_uniform(data, dim, lam, lumped, classes, **kw)
+        check_data_handling(ck, op, case, tags, "after initialize()")
         op.grid.setCurrentArea(np.zeros(dim), np.ones(dim), lv)
         # ---- matrix
         R = op.build_R_matrix(lv)
@@ -703,11 +772,16 @@ def _run_case(ck, case):
                 ck.viol("surpluses-solve-the-system", tags, case, {"impl": np.asarray(al).tolist()[:8]})
             check_normalised(ck, al, [1] * N, case, tags, exact=(classes is not None, raw))
             ctx.count("solve_uniform")
+            if case.get("history"):
+                run_object_history(ck, op, "uniform", case, stripes, lam, lumped, classes, data, tags, R, b, pts)
+        check_data_handling(ck, op, case, tags, "at the end")
     else:
         numeric = bool(case.get("numeric"))
         reuse = bool(case.get("reuse"))
         tags = dict(tags, reuse=reuse)
-        op, cont = mk_dimwise(data, dim, lam, lumped, classes, numeric=numeric, reuse=reuse)
+        op, cont = mk_dimwise(data, dim, lam, lumped, classes, numeric=numeric, reuse=reuse, **kw)
+        check_data_handling(ck, op, case, tags, "after initialize()")
+        R = None
         levels = [[node_level(c) for c in s] for s in stripes]
         st = fvs(stripes)
         fstripes = fl(stripes)
@@ -817,6 +891,111 @@ def _run_case(ck, case):
                         "reference": [float(v) for v in normalise_ref(classes is not None, raw, wref)][:8]})
             check_normalised(ck, al, wref, case, tags, exact=(classes is not None, raw))
             ctx.count("solve_dimwise")
+            if case.get("history") and R is not None:
+                run_object_history(ck, op, "dimwise", case, stripes, lam, lumped, classes, data, tags, R, b, pts)
+        check_data_handling(ck, op, case, tags, "at the end")
+
+
+def exact_surpluses(kind, stripes, lam, lumped, classes, data):
+    """normalised exact solution of the exact system (as the code defines it: uniform mass lumping ignores lambda)"""
+    signs = [F(c) for c in classes] if classes is not None else [F(1)] * len(data)
+    bref = b_ref(stripes, data, signs)
+    G = gram_ref(stripes)
+    N = len(bref)
+    if lumped:
+        raw = [v / (G[i][i] + (lam if kind != "uniform" else 0)) for i, v in enumerate(bref)]
+    else:
+        raw = solve_exact([[G[i][j] + (lam if i == j else 0) for j in range(N)] for i in range(N)], bref)
+    w = [1] * N if kind == "uniform" else trap_weights_ref(stripes)
+    return normalise_ref(classes is not None, raw, w)
+
+
+def evaluate_public(op, kind, case, stripes):
+    """surpluses through the public evaluation route of the kind"""
+    from sparseSpACE.ComponentGridInfo import ComponentGridInfo
+    if kind == "uniform":
+        lv = tuple(case["lv"])
+        op.evaluate_levelvec(ComponentGridInfo(lv, 1))
+        return lv
+    levels = [[node_level(c) for c in s] for s in stripes]
+    lvec = tuple(max(l) for l in levels)
+    op.calculate_operation_dimension_wise(fl(stripes), levels, ComponentGridInfo(lvec, 1))
+    return lvec
+
+
+def run_sibling(ck, case, stripes, data, lam, lumped, classes, tags):
+    """two operations alive at once (different data, lambda, lumping, labels; same grid = same dictionary keys), work interleaved;
+    each is re-observed after the other one worked"""
+    kind, dim, sib = case["kind"], case["dim"], case["sibling"]
+    data2 = [[F(c) for c in x] for x in sib["data"]]
+    lam2 = F(sib["lam"])
+    if kind == "uniform":
+        A = mk_uniform(data, dim, lam, lumped, classes)
+        B = mk_uniform(data2, dim, lam2, sib["lumped"], sib["classes"])
+    else:
+        A, _ = mk_dimwise(data, dim, lam, lumped, classes, reuse=bool(case.get("reuse")))
+        B, _ = mk_dimwise(data2, dim, lam2, sib["lumped"], sib["classes"], reuse=bool(sib["reuse"]))
+    refA = exact_surpluses(kind, stripes, lam, lumped, classes, data)
+    refB = exact_surpluses(kind, stripes, lam2, sib["lumped"], sib["classes"], data2)
+    key = evaluate_public(A, kind, case, stripes)
+    a1 = np.array(A.surpluses[key])
+    evaluate_public(B, kind, case, stripes)
+    b1 = np.array(B.surpluses[key])
+    if not np.array_equal(np.asarray(A.surpluses[key]), a1):
+        ck.viol("sibling-operation-disturbs-results", dict(tags, what="stored surpluses of A after B worked"), case, {})
+    evaluate_public(A, kind, case, stripes)
+    a2 = np.array(A.surpluses[key])
+    if not np.array_equal(np.asarray(B.surpluses[key]), b1):
+        ck.viol("sibling-operation-disturbs-results", dict(tags, what="stored surpluses of B after A worked again"), case, {})
+    for name, got, ref in (("A first", a1, refA), ("B", b1, refB), ("A again", a2, refA)):
+        if not vec_near(got, ref, 1e-8):
+            ck.viol("sibling-operation-disturbs-results", dict(tags, what=name), case,
+                    {"impl": np.asarray(got).tolist()[:6], "reference": [float(v) for v in ref][:6]})
+    for o, w in ((A, "A"), (B, "B")):
+        check_data_handling(ck, o, dict(case, affine=None), tags, "sibling " + w)
+    ck.ctx.count("sibling_cases")
+
+
+def run_object_history(ck, op, kind, case, stripes, lam, lumped, classes, data, tags, first_R, first_b, pts):
+    """ONE object, repeated queries: same matrix / right-hand side again, `initialize()` again, interpolation does not touch the stored
+    surpluses, a second evaluation returns the same surpluses"""
+    from sparseSpACE.ComponentGridInfo import ComponentGridInfo
+    ctx = ck.ctx
+    levels = [[node_level(c) for c in s] for s in stripes]
+    key = evaluate_public(op, kind, case, stripes)
+    snap = np.array(op.surpluses[key])
+    op.initialize()
+    check_data_handling(ck, op, case, tags, "after second initialize()")
+    if kind == "uniform":
+        lv = case["lv"]
+        R2, b2 = op.build_R_matrix(lv), op.calculate_B(op.data, lv)
+    else:
+        R2, b2 = op.build_R_matrix_dimension_wise(fl(stripes), levels), op.calculate_B_dimension_wise(op.data, fl(stripes), levels)
+    same_R = np.shape(R2) == np.shape(first_R) and all(near_entry(x, y) for x, y in zip(np.ravel(R2), np.ravel(first_R)))
+    if not same_R or not np.array_equal(np.asarray(b2), np.asarray(first_b)):
+        ck.viol("repeated-query-differs", dict(tags, what="matrix" if not same_R else "right-hand side"), case, {})
+    # interpolation of the stored surpluses at points incl. grid lines; must equal sum_i alpha_i phi_i(x) and leave them untouched
+    hats = hats_of(stripes)
+    alf = to_fr(snap)
+    fp = [tuple(float(c) for c in x) for x in pts]
+    if kind == "uniform":
+        vals = op.interpolate_points_component_grid(ComponentGridInfo(tuple(case["lv"]), 1), None, fp)
+    else:
+        op.grid.set_grid(fl(stripes), levels)
+        vals = op.interpolate_points_component_grid(ComponentGridInfo(key, 1), fl(stripes), fp)
+    for k, x in enumerate(pts):
+        ref = sum(a * hat_nd_ref(h, x) for a, h in zip(alf, hats))
+        if not near(np.ravel(vals[k])[0], ref, 1e-9):
+            ck.viol("interpolation-of-stored-surpluses", tags, dict(case, point=fv(x)), {"impl": float(np.ravel(vals[k])[0]), "reference": float(ref)})
+            break
+    if not np.array_equal(np.asarray(op.surpluses[key]), snap):
+        ck.viol("query-modifies-stored-surpluses", tags, case, {})
+    evaluate_public(op, kind, case, stripes)
+    again = np.asarray(op.surpluses[key])
+    if not vec_near(again, snap, 1e-9):
+        ck.viol("repeated-query-differs", dict(tags, what="surpluses of a second evaluation"), case,
+                {"first": snap.tolist()[:6], "second": again.tolist()[:6]})
+    ctx.count("object_history_cases")
 
 
 def err_class(rel):
@@ -849,7 +1028,8 @@ def combi_case(ctx, drv, thorough):
     classes = [r.choice([-1, 1]) for _ in range(M)] if r.random() < 0.4 else None
     lumped = r.random() < 0.25
     pts = special_points(r, stripes, 8)
-    case = {"kind": "combi", "dim": dim, "lmin": lmin, "lmax": lmax, "lam": frac_str(lam), "lumped": lumped, "classes": classes,
+    lmax2 = r.choice([None, lmax - 1, lmax + 1 if (dim < 3 and lmax < 4) else lmax - 1])
+    case = {"kind": "combi", "dim": dim, "lmin": lmin, "lmax": lmax, "lmax2": lmax2 if (lmax2 or 0) >= 1 else None, "lam": frac_str(lam), "lumped": lumped, "classes": classes,
             "data": [[frac_str(c) for c in x] for x in data], "points": [[frac_str(c) for c in x] for x in pts]}
     return case
 
@@ -866,36 +1046,42 @@ def run_combi(ctx, drv, case):
         signs = [F(c) for c in classes] if classes is not None else [F(1)] * len(data)
         op = mk_uniform(data, dim, lam, case["lumped"], classes)
         combi = StandardCombi(np.zeros(dim), np.ones(dim), operation=op, **quiet())
-        combi.perform_operation(case["lmin"], case["lmax"])
-        vals = combi([tuple(float(c) for c in x) for x in pts])
-        ref = [F(0)] * len(pts)
         tags = {"kind": "combi", "dim": dim, "lumped": case["lumped"], "classes": classes is not None}
-        for cg in combi.scheme:
-            lv = tuple(int(v) for v in cg.levelvector)
-            al = op.surpluses[lv]
-            stripes = uniform_stripes(lv)
-            N = len(al)
-            check_normalised(ck, al, [1] * N, case, tags)
-            # surpluses against the exact solution of the exact system
-            bref = b_ref(stripes, data, signs)
-            if N <= 45:
-                G = gram_ref(stripes)
-                if case["lumped"]:
-                    raw = [v / G[0][0] for v in bref]
-                else:
-                    raw = solve_exact([[G[i][j] + (lam if i == j else 0) for j in range(N)] for i in range(N)], bref)
-                mn = parse_vec(drv.ask("normu %d %s" % (1 if classes is not None else 0, fv(raw))))
-                if not vec_near(al, mn, 1e-8):
-                    ck.corr("surpluses after perform_operation", dict(case, lv=list(lv)), np.asarray(al).tolist(), [float(v) for v in mn])
-                if not vec_near(al, normalise_ref(classes is not None, raw, [1] * N), 1e-8):
-                    ck.viol("surpluses-solve-the-system", tags, dict(case, lv_component=list(lv)), {"impl": np.asarray(al).tolist()[:8]})
-            hats = hats_of(stripes)
-            alf = to_fr(al)
-            for k, x in enumerate(pts):
-                ref[k] += int(cg.coefficient) * sum(a * hat_nd_ref(h, x) for a, h in zip(alf, hats))
-        for k in range(len(pts)):
-            if not near(vals[k][0], ref[k], 1e-9):
-                ck.viol("combi-interpolant", tags, dict(case, point=case["points"][k]), {"impl": float(vals[k][0]), "reference": float(ref[k])})
+        # first run, then a SECOND perform_operation with another maximum level on the same combi / operation objects
+        runs = [case["lmax"]] + ([case["lmax2"]] if case.get("lmax2") else [])
+        for nrun, lmax in enumerate(runs):
+            combi.perform_operation(case["lmin"], lmax)
+            vals = combi([tuple(float(c) for c in x) for x in pts])
+            ref = [F(0)] * len(pts)
+            rtags = dict(tags, second_run=bool(nrun))
+            for cg in combi.scheme:
+                lv = tuple(int(v) for v in cg.levelvector)
+                al = op.surpluses[lv]
+                stripes = uniform_stripes(lv)
+                N = len(al)
+                check_normalised(ck, al, [1] * N, case, rtags)
+                # surpluses against the exact solution of the exact system
+                bref = b_ref(stripes, data, signs)
+                if N <= 45:
+                    G = gram_ref(stripes)
+                    if case["lumped"]:
+                        raw = [v / G[0][0] for v in bref]
+                    else:
+                        raw = solve_exact([[G[i][j] + (lam if i == j else 0) for j in range(N)] for i in range(N)], bref)
+                    mn = parse_vec(drv.ask("normu %d %s" % (1 if classes is not None else 0, fv(raw))))
+                    if not vec_near(al, mn, 1e-8):
+                        ck.corr("surpluses after perform_operation", dict(case, lv=list(lv)), np.asarray(al).tolist(), [float(v) for v in mn])
+                    if not vec_near(al, normalise_ref(classes is not None, raw, [1] * N), 1e-8):
+                        ck.viol("surpluses-solve-the-system", rtags, dict(case, lv_component=list(lv), second_run=bool(nrun)), {"impl": np.asarray(al).tolist()[:8]})
+                hats = hats_of(stripes)
+                alf = to_fr(al)
+                for k, x in enumerate(pts):
+                    ref[k] += int(cg.coefficient) * sum(a * hat_nd_ref(h, x) for a, h in zip(alf, hats))
+            for k in range(len(pts)):
+                if not near(vals[k][0], ref[k], 1e-9):
+                    ck.viol("combi-interpolant", rtags, dict(case, point=case["points"][k], second_run=bool(nrun)),
+                            {"impl": float(vals[k][0]), "reference": float(ref[k])})
+        check_data_handling(ck, op, case, tags, "after perform_operation")
         ctx.count("combi_runs")
     except Exception:
         ck.ok = False
@@ -932,9 +1118,14 @@ def run(ctx):
             case = combi_case(ctx, drv, thorough)
             ok = run_combi(ctx, drv, case)
         else:
-            case = gen_case(ctx, thorough, force="uniform-big-classes" if k % 20 == 3 else ("numeric-2d" if k % 25 == 8 else ("extreme" if k % 11 == 5 else None)))
+            case = gen_case(ctx, thorough, force="uniform-big-classes" if k % 20 == 3 else ("numeric-2d" if k % 25 == 8 else ("extreme" if k % 11 == 5 else
+                                    ("sibling" if k % 13 == 6 else ("outside" if k % 17 == 4 else ("history" if k % 9 == 2 else None))))))
             if case.get("extreme"):
                 ctx.count("extreme_scale_cases")
+            if case.get("affine"):
+                ctx.count("data_outside_cube_cases")
+            if case.get("pre_scaled"):
+                ctx.count("pre_scaled_data_cases")
             ok = run_case(ctx, drv, case)
             if case["kind"] == "uniform" and case["big"] and case["classes"] is not None:
                 ctx.count("uniform_ge_200_with_classes")
@@ -954,7 +1145,7 @@ def run(ctx):
 def replay(ctx, rp):
     case = rp["case"]
     drv = ctx.driver("drv_c16")
-    base = {k: v for k, v in case.items() if k not in ("hat", "x", "ivec", "point", "lv_component", "warm", "stripes3")}
+    base = {k: v for k, v in case.items() if k not in ("hat", "x", "ivec", "point", "lv_component", "warm", "stripes3", "second_run")}
     if case.get("kind") == "combi":
         ok = run_combi(ctx, drv, base)
     else:
